@@ -251,13 +251,11 @@ func (dp *DataProcessor) Fetch() (*iqr.IQR, error) {
 				return nil, utils.WrapErrorf(err, "DP.Fetch: failed to fetch input: %v", err)
 			}
 
-			dp.processorLock.Lock()
-			if dp.isCleanupCalled {
-				dp.processorLock.Unlock()
+			var cleanedUp bool
+			output, err, cleanedUp = dp.processLocked(input)
+			if cleanedUp {
 				return nil, io.EOF
 			}
-			output, err = dp.processor.Process(input)
-			dp.processorLock.Unlock()
 
 			if err == io.EOF {
 				gotEOF = true
@@ -281,6 +279,20 @@ func (dp *DataProcessor) Fetch() (*iqr.IQR, error) {
 			}
 		}
 	}
+}
+
+// processLocked runs the processor on one input while holding processorLock. The lock is released by a
+// deferred call so that it is also released when Process panics (the panic is recovered at the root of
+// the query goroutine): otherwise Cleanup, which takes the same lock, would block for ever.
+func (dp *DataProcessor) processLocked(input *iqr.IQR) (output *iqr.IQR, err error, cleanedUp bool) {
+	dp.processorLock.Lock()
+	defer dp.processorLock.Unlock()
+
+	if dp.isCleanupCalled {
+		return nil, nil, true
+	}
+	output, err = dp.processor.Process(input)
+	return output, err, false
 }
 
 func (dp *DataProcessor) IsDataGenerator() bool {
